@@ -92,9 +92,11 @@ Proof. exact lock_level_without_lock_refuted. Qed.
 Print Assumptions fifo_lock_level_unlocked_refuted.
 
 (* finite table regenerated from the source: the flag tests / queue calls / labels / returns of step() occur in both
-   engines in the order the control model StepCtl.cstep was written against (one model for both engines) *)
+   engines in the order the control model StepCtl.cstep was written against (one model for both engines; as written or with the
+   repair of patches/C08-recheck-eventless.diff -- the check compares the variant with the observed behaviour) *)
 Theorem step_skeleton_as_modelled :
-  stepctl_source_ok = true /\ large_landmarks = modelled_landmarks /\ fast_landmarks = modelled_landmarks.
+  stepctl_source_ok = true /\
+  exists recheck, large_landmarks = landmarks_for recheck /\ fast_landmarks = landmarks_for recheck.
 Proof. exact engines_same_landmarks. Qed.
 Print Assumptions step_skeleton_as_modelled.
 
